@@ -229,6 +229,116 @@ pub fn guarded<F: FnOnce() -> Verdict>(f: F) -> Verdict {
     }
 }
 
+// --- calls that may never return ----------------------------------------------
+
+/// Result of [`bounded_cpu`].
+pub enum Bounded<T> {
+    Done(T),
+    /// (location, message) of a panic on the helper thread
+    Panicked(String, String),
+    /// the helper thread consumed this many CPU seconds without returning
+    Hung(f64),
+}
+
+static HANG_SEEN: AtomicBool = AtomicBool::new(false);
+
+/// CPU seconds (user + system) consumed so far by thread `tid` of this process.
+fn thread_cpu_secs(tid: u64) -> Option<f64> {
+    let s = std::fs::read_to_string(format!("/proc/self/task/{tid}/stat")).ok()?;
+    // the command name (field 2) may contain spaces: fields are counted after the last ')'
+    let rest = &s[s.rfind(')')? + 1..];
+    let f: Vec<&str> = rest.split_whitespace().collect();
+    // rest starts at field 3 (state); utime = field 14, stime = field 15; USER_HZ is 100 on Linux
+    let ticks = f.get(11)?.parse::<u64>().ok()? + f.get(12)?.parse::<u64>().ok()?;
+    Some(ticks as f64 / 100.0)
+}
+
+/// Run `f` on a helper thread and wait for it; if the helper *consumes* more CPU time than the
+/// budget (10 s for the first such event of the process, 3 s afterwards, so that shrinking stays
+/// affordable) without returning, give up on it and report `Hung`. The budget is CPU time of that
+/// one thread, not wall-clock time, so a loaded machine cannot turn a slow case into a failure;
+/// it is meant for calls whose normal cost is microseconds (a ratio of 10^6). A stuck helper
+/// cannot be killed: it keeps spinning until the process exits.
+pub fn bounded_cpu<T: Send + 'static, F: FnOnce() -> T + Send + 'static>(f: F) -> Bounded<T> {
+    use std::sync::mpsc::{channel, RecvTimeoutError};
+    let (tx, rx) = channel::<Result<T, (String, String)>>();
+    let job: Job = Box::new(move || {
+        let r = catch_inner(f);
+        lightmotif::pli::verif_hooks::force_backend(None);
+        let _ = tx.send(r);
+    });
+    let tid = HELPER.with(|h| {
+        let mut h = h.borrow_mut();
+        if h.is_none() {
+            *h = Some(Helper::start());
+        }
+        let hp = h.as_ref().unwrap();
+        let _ = hp.jobs.send(job);
+        hp.tid
+    });
+    let mut wait = std::time::Duration::from_millis(250);
+    let cpu0 = std::cell::Cell::new(None::<f64>);
+    loop {
+        match rx.recv_timeout(wait) {
+            Ok(Ok(v)) => return Bounded::Done(v),
+            Ok(Err((loc, msg))) => return Bounded::Panicked(loc, msg),
+            Err(RecvTimeoutError::Disconnected) => {
+                HELPER.with(|h| *h.borrow_mut() = None);
+                return Bounded::Panicked("?".into(), "helper thread died without a result".into());
+            }
+            Err(RecvTimeoutError::Timeout) => {
+                let budget = if HANG_SEEN.load(Ordering::Relaxed) { 3.0 } else { 10.0 };
+                if let Some(cpu) = thread_cpu_secs(tid) {
+                    // the helper is reused from case to case: count from the first look at this job
+                    // (at most 250 ms of this job's own time are not counted)
+                    let start = match cpu0.get() {
+                        Some(c) => c,
+                        None => {
+                            cpu0.set(Some(cpu));
+                            cpu
+                        }
+                    };
+                    if cpu - start >= budget {
+                        HANG_SEEN.store(true, Ordering::Relaxed);
+                        // abandon the stuck helper; the next call starts a new one
+                        HELPER.with(|h| *h.borrow_mut() = None);
+                        return Bounded::Hung(cpu - start);
+                    }
+                }
+                wait = std::time::Duration::from_millis(100);
+            }
+        }
+    }
+}
+
+type Job = Box<dyn FnOnce() + Send + 'static>;
+
+/// One helper thread per checking thread, reused from case to case.
+struct Helper {
+    tid: u64,
+    jobs: std::sync::mpsc::Sender<Job>,
+}
+
+impl Helper {
+    fn start() -> Helper {
+        let (jobs, rx) = std::sync::mpsc::channel::<Job>();
+        let (tx_tid, rx_tid) = std::sync::mpsc::channel::<u64>();
+        std::thread::spawn(move || {
+            let tid = std::fs::read_link("/proc/thread-self").ok().and_then(|p| p.file_name().and_then(|n| n.to_str().and_then(|n| n.parse::<u64>().ok()))).unwrap_or(0);
+            let _ = tx_tid.send(tid);
+            QUIET.with(|q| *q.borrow_mut() = true);
+            while let Ok(job) = rx.recv() {
+                job();
+            }
+        });
+        Helper { tid: rx_tid.recv().unwrap_or(0), jobs }
+    }
+}
+
+thread_local! {
+    static HELPER: RefCell<Option<Helper>> = const { RefCell::new(None) };
+}
+
 // --- sub-check trait ---------------------------------------------------------
 
 pub trait Sub: Sync + Send {
